@@ -145,6 +145,12 @@ func Build(specs []GenSpec) []gengo.Generator {
 				inst.Seen[name] = true
 				render(c, bh, name)
 				c.RenderT("// @g call #@k of this instance\n\n", snippet.Arg("g", snippet.Block(gs.Name)), snippet.Arg("k", snippet.Block(fmt.Sprint(inst.Calls))))
+			case "analyze":
+				// whole-package analysis through the universe-wide accessors, once per instance
+				if !inst.Helper {
+					inst.Helper = true
+					analyze(c, gs.Name)
+				}
 			case "render", "defer-error", "kill-defer":
 				render(c, bh, name)
 			case "nothing", "alias-only", "alias-ignore-nothing":
@@ -415,6 +421,45 @@ func sanitize(s string) string {
 
 // observe renders everything gengo hands to a generator for one type, so that any order dependence or
 // wrong attribution inside gengo shows up as different output bytes.
+// analyze renders what ResultsOf answers for every function of the package and, asked through this package, for
+// every function of the module-local packages it imports.
+func analyze(c gengo.Context, gen string) {
+	pkg := c.Package("")
+	own := func(pos token.Pos) bool {
+		return !strings.HasPrefix(filepath.Base(pkg.Position(pos).Filename), "zz_generated.")
+	}
+	emit := func(label string, q interface {
+		Functions() map[string]*types.Func
+	}) {
+		var names []string
+		for n, f := range q.Functions() {
+			if own(f.Pos()) {
+				names = append(names, n)
+			}
+		}
+		sort.Strings(names)
+		for _, n := range names {
+			results, k := pkg.ResultsOf(q.Functions()[n])
+			c.RenderT("// @g: results of @l@f: @k @r\n", snippet.Arg("g", snippet.Block(gen)), snippet.Arg("l", snippet.Block(label)), snippet.Arg("f", snippet.Block(n)),
+				snippet.Arg("k", snippet.Block(fmt.Sprint(k))), snippet.Arg("r", snippet.Block(strings.ReplaceAll(results.String(), "\n", " "))))
+		}
+	}
+	emit("", pkg)
+	var ips []string
+	for ip := range pkg.Imports() {
+		if pkg.Module() != nil && strings.HasPrefix(ip, pkg.Module().Path+"/") {
+			ips = append(ips, ip)
+		}
+	}
+	sort.Strings(ips)
+	for _, ip := range ips {
+		if q := pkg.Imports()[ip]; q != nil {
+			emit(ip+".", q)
+		}
+	}
+	c.RenderT("\nvar _ = \"analyzed by @g\"\n\n", snippet.Arg("g", snippet.Block(gen)))
+}
+
 func observe(c gengo.Context, bh Behav, gen string, named *types.Named) {
 	obj := named.Obj()
 	pkg := c.Package("")
